@@ -38,6 +38,35 @@ def write_cfg(path, profile, big, depth, check=True, export=False):
         fp.write(text)
 
 
+def build_schema(cinco, desc):
+    """The schema of a state, assembled by one of the two public routes (they must give the same
+    variable names): attribute assignment parent-first, or - where no nested schema carries
+    environment settings of its own, so that it can be created implicitly - dotted item
+    assignment on the root (schema["sub.deep.c"] = field), which creates the intermediate schemas."""
+    import zlib
+
+    def plain_below(d, top=True):
+        for _k, f in codec.seq(d["fields"]):
+            if f["kind"] == "schema":
+                if (f.get("senv") or {"m": "inherit"})["m"] != "inherit" or f.get("ctype") or not plain_below(f, False):
+                    return False
+        return True
+
+    if not plain_below(desc) or zlib.crc32(repr(desc).encode()) % 2:
+        return cfgadapter.build_schema_topdown(cinco, desc)
+    root = cinco.Schema(**cfgadapter.env_kwarg(desc.get("senv")))
+
+    def fill(d, prefix):
+        for k, f in codec.seq(d["fields"]):
+            if f["kind"] == "schema":
+                fill(f, prefix + [k])
+            else:
+                root[".".join(prefix + [k])] = cfgadapter.fieldmap.build(cinco, f)
+
+    fill(desc, [])
+    return root
+
+
 class World:
     def __init__(self, cinco, init, environ):
         self.cinco = cinco
@@ -46,7 +75,7 @@ class World:
             self.saved[k] = os.environ.pop(k, None)
         for k, v in environ.items():
             os.environ[k] = v
-        self.schema = cfgadapter.build_schema_topdown(cinco, init["sch"])
+        self.schema = build_schema(cinco, init["sch"])
         self.cfg = None
 
     def close(self):
